@@ -629,6 +629,29 @@ def weak_case(case) -> bool:
     return case["mode"] == "mixed" and case["method"] == "stacked_time"
 
 
+def oracle_spelling(ctx: Ctx, case, r) -> bool:
+    """API equivalence: the same request written with aliases (method="stacked", the keyword left out for the default method, the plan
+    class aliases, swap_* for an exogenize/endogenize pair, keyword arguments, Span / list forms of the dates) and written canonically
+    must give the same databox"""
+    if "canon_error" in r:
+        ctx.fail(f"spelling-equivalence-{case['method']}", case,
+                 f"runs as {r.get('spellings')} but the canonical spelling raises {r['canon_error']}")
+        return False
+    if "canon" not in r:
+        return True
+    N = case["N"]
+    names, us, vs = all_names(case["spec"])
+    scale = scale_of(case, r)
+    for nm in names + us + vs:
+        a, b = values(r["sim2"], nm, N), values(r["canon"], nm, N)
+        if not np.all((np.abs(a - b) <= 1e-12 * scale) | (np.isnan(a) & np.isnan(b))):
+            t = int(np.nanargmax(np.abs(a - b)))
+            ctx.fail(f"spelling-equivalence-{case['method']}", case,
+                     f"{nm}[{t}]: {a[t]!r} under {r.get('spellings')}, {b[t]!r} under the canonical spelling of the same request")
+            return False
+    return True
+
+
 def oracle_case(ctx: Ctx, case, r, cond) -> bool:
     """the property on the implementation; True when everything demanded holds"""
     spec, N = case["spec"], case["N"]
@@ -836,6 +859,9 @@ def run_cases(ctx: Ctx, cases, with_model=True):
             ctx.count(f"staged_cases(one plan object, {len(staged)} simulations)")
         for f in (staged[-1][1].get("forms") or []):
             ctx.count(f"cond_plan_dates_as:{f}")
+        for sp in (staged[-1][1].get("spellings") or []):
+            ctx.count(f"spelling:{sp}")
+        ctx.count("spelling_equivalence_twins", sum(1 for _, rr in staged if "canon" in rr or "canon_error" in rr))
         for case, r in staged:
             ctx.evaluations += 1
             tag = "stage>0:" if case.get("stage", 0) > 0 else ""
@@ -859,7 +885,7 @@ def run_cases(ctx: Ctx, cases, with_model=True):
                 ctx.fail(f"identified-plan-rejected-{case['method']}-{case['mode']}", case,
                          f"exactly identified plan with cond(M)={cond:.3g} raises {r['error']}")
             else:
-                if oracle_case(ctx, case, r, cond):
+                if oracle_case(ctx, case, r, cond) and oracle_spelling(ctx, case, r):
                     ctx.nontriv((case["method"], case["mode"], len(case["targets"]), len(case["spec"]["names"]),
                                  tuple(sorted(t for _, t in case["targets"])), tuple(sorted(t for _, t in case["instruments"])),
                                  case.get("stage", 0)))
